@@ -1,11 +1,336 @@
-//! C02 remote sub-checks (filled in with the network peers).
-use crate::engine::*;
-use serde_json::Value;
+//! C02 remote sub-checks: hostile headers sent to live servers (hosted in a child
+//! process, so an abort is observed rather than suffered) and hostile replies sent
+//! to live clients (also run inside a child).
 
-pub fn run(_ctx: &Ctx, _rep: &Report) {}
-pub fn child(_sub: &str) -> i32 {
-    2
+use crate::engine::child::{child_loop, run_in_children};
+use crate::engine::*;
+use crate::ensure;
+use crate::oracle::codec::{self, OHeader};
+use crate::peers::net::*;
+use crate::util::block_on_mt as block_on;
+use repe::{AsyncClient, AsyncServer, Client, Router, Server, WebSocketClient, WebSocketServer};
+use serde::{Deserialize, Serialize};
+use serde_json::{Value, json};
+use std::io::{BufRead, BufReader, Read, Write};
+use std::process::{Command, Stdio};
+use std::time::Duration;
+
+#[derive(Debug, Clone, Copy, Serialize, Deserialize, Hash, PartialEq, Eq)]
+pub enum Target {
+    Server,
+    AsyncServer,
+    WsServer,
+    Client,
+    AsyncClient,
+    WsClient,
 }
-pub fn replay(sub: &str, _case: &Value) -> Result<(), Fail> {
-    Err(Fail::new("replay-unknown-sub", sub.to_string()))
+
+#[derive(Debug, Clone, Serialize, Deserialize, Hash, PartialEq, Eq)]
+pub struct Hostile {
+    pub target: Target,
+    pub length: u64,
+    pub q: u64,
+    pub b: u64,
+    pub magic: bool,
+    /// bytes of payload actually sent after the header
+    pub avail: u16,
+    /// send only this many bytes of the header (48 = whole)
+    pub header_bytes: u8,
+}
+
+fn header_bytes(h: &Hostile, id: u64) -> Vec<u8> {
+    let oh = OHeader {
+        length: h.length,
+        spec: if h.magic { codec::MAGIC } else { 0x0715 },
+        version: 1,
+        id,
+        query_length: h.q,
+        body_length: h.b,
+        query_format: 1,
+        body_format: 2,
+        ..OHeader::default()
+    };
+    let mut v = oh.encode().to_vec();
+    v.truncate(h.header_bytes.min(48) as usize);
+    if h.header_bytes >= 48 {
+        v.extend(std::iter::repeat_n(0x41u8, h.avail as usize));
+    }
+    v
+}
+
+fn ok_for_streams(h: &Hostile) -> bool {
+    // consistent headers must stay memory-independent (<= 16 MiB or >= 2^62 per payload)
+    let oh = OHeader {
+        length: h.length,
+        spec: codec::MAGIC,
+        query_length: h.q,
+        body_length: h.b,
+        ..OHeader::default()
+    };
+    if !h.magic || !oh.consistent() {
+        return true;
+    }
+    let ok = |x: u64| x <= (16 << 20) || x >= (1 << 62);
+    ok(h.q) && ok(h.b)
+}
+
+pub fn hostile_classes() -> Vec<(u64, u64, u64, bool, u16, u8)> {
+    // (length, q, b, magic, avail, header_bytes)
+    vec![
+        (48 + (1 << 62), 1 << 62, 0, true, 0, 48),
+        (48 + (1 << 62), 0, 1 << 62, true, 10, 48),
+        ((1 << 63) + 48, 0, 1 << 63, true, 0, 48),
+        (u64::MAX, 0, u64::MAX - 48, true, 0, 48),
+        (0, u64::MAX - 47, 0, true, 0, 48),
+        (0, 0, u64::MAX - 1, true, 5, 48),
+        (47, 0, u64::MAX, true, 0, 48),
+        (48, u64::MAX, 1, true, 100, 48),
+        (49, 0, 0, true, 1, 48),
+        (48, 0, 0, false, 0, 48),
+        (100, 52, 0, true, 10, 48),
+        (48, 0, 0, true, 0, 20),
+        (1 << 40, 1 << 39, 1 << 39, true, 0, 48),
+    ]
+}
+
+// ---------------------------------------------------------------- servers
+
+fn router() -> Router {
+    Router::new().with_json("/ok", |v: Value| Ok(json!({"echo": v})))
+}
+
+/// Child: host the three servers, print their ports, then idle until stdin closes.
+pub fn child(sub: &str) -> i32 {
+    if sub == "remote-clients" {
+        return child_loop::<Hostile>(&check_client);
+    }
+    if sub != "remote-servers" {
+        return 2;
+    }
+    quiet_panics();
+    let server = Server::new(router());
+    let l = server.listen("127.0.0.1:0").unwrap();
+    let p1 = l.local_addr().unwrap().port();
+    std::thread::spawn(move || {
+        let _ = server.serve(l);
+    });
+    let rt = tokio::runtime::Builder::new_multi_thread().worker_threads(2).enable_all().build().unwrap();
+    let (p2, p3) = rt.block_on(async {
+        let l2 = AsyncServer::listen("127.0.0.1:0").await.unwrap();
+        let p2 = l2.local_addr().unwrap().port();
+        tokio::spawn(async move {
+            let _ = AsyncServer::new(router()).serve(l2).await;
+        });
+        let l3 = WebSocketServer::listen("127.0.0.1:0").await.unwrap();
+        let p3 = l3.local_addr().unwrap().port();
+        tokio::spawn(async move {
+            let _ = WebSocketServer::new(router()).on_error(|_| {}).serve_listener(l3, "/repe").await;
+        });
+        (p2, p3)
+    });
+    println!("PORTS {p1} {p2} {p3}");
+    let _ = std::io::stdout().flush();
+    let mut sink = String::new();
+    let _ = std::io::stdin().read_to_string(&mut sink);
+    0
+}
+
+fn valid_call(target: Target, port: u16) -> Result<(), String> {
+    match target {
+        Target::Server | Target::AsyncServer => {
+            let c = Client::connect(("127.0.0.1", port)).map_err(|e| format!("connect: {e}"))?;
+            let v = c.call_json_with_timeout("/ok", &json!(5), Duration::from_secs(10)).map_err(|e| format!("call: {e}"))?;
+            if v == json!({"echo": 5}) { Ok(()) } else { Err(format!("wrong answer {v}")) }
+        }
+        _ => block_on(async {
+            let c = WebSocketClient::connect(&format!("ws://127.0.0.1:{port}/repe")).await.map_err(|e| format!("connect: {e}"))?;
+            let v = c.call_json_with_timeout("/ok", &json!(5), Duration::from_secs(10)).await.map_err(|e| format!("call: {e}"))?;
+            if v == json!({"echo": 5}) { Ok(()) } else { Err(format!("wrong answer {v}")) }
+        }),
+    }
+}
+
+fn run_servers(ctx: &Ctx, rep: &Report) {
+    let sub = "remote-servers";
+    if !ctx.want(sub) {
+        return;
+    }
+    let exe = match std::env::current_exe() {
+        Ok(e) => e,
+        Err(e) => return rep.mark_inconclusive(format!("current_exe: {e}")),
+    };
+    let spawn = || -> Option<(std::process::Child, [u16; 3])> {
+        let mut child = Command::new(&exe)
+            .args(["child", "C02", "remote-servers"])
+            .stdin(Stdio::piped())
+            .stdout(Stdio::piped())
+            .stderr(Stdio::null())
+            .spawn()
+            .ok()?;
+        let mut out = BufReader::new(child.stdout.take()?);
+        let mut line = String::new();
+        out.read_line(&mut line).ok()?;
+        let p: Vec<u16> = line.strip_prefix("PORTS ")?.split_whitespace().filter_map(|x| x.parse().ok()).collect();
+        if p.len() != 3 {
+            return None;
+        }
+        Some((child, [p[0], p[1], p[2]]))
+    };
+    let Some((mut child, mut ports)) = spawn() else {
+        return rep.mark_inconclusive("cannot start the server child");
+    };
+    for (i, (length, q, b, magic, avail, hb)) in hostile_classes().into_iter().enumerate() {
+        for (ti, target) in [Target::Server, Target::AsyncServer, Target::WsServer].into_iter().enumerate() {
+            let h = Hostile { target, length, q, b, magic, avail, header_bytes: hb };
+            if !ok_for_streams(&h) {
+                continue;
+            }
+            let port = ports[ti];
+            // deliver the hostile bytes
+            let bytes = header_bytes(&h, 500 + i as u64);
+            match target {
+                Target::Server | Target::AsyncServer => {
+                    if let Ok(mut s) = std::net::TcpStream::connect(("127.0.0.1", port)) {
+                        let _ = s.write_all(&bytes);
+                        let _ = s.set_read_timeout(Some(Duration::from_millis(200)));
+                        let mut buf = [0u8; 64];
+                        let _ = s.read(&mut buf);
+                    }
+                }
+                _ => {
+                    let _ = block_on(async {
+                        if let Ok((ws, _)) = repe::tokio_tungstenite::connect_async(format!("ws://127.0.0.1:{port}/repe")).await {
+                            let mut io = WsIo::new(ws);
+                            let _ = io.send(&bytes).await;
+                            let _ = tokio::time::timeout(Duration::from_millis(200), io.recv_raw()).await;
+                        }
+                    });
+                }
+            }
+            // the process must have survived: a fresh connection gets a valid answer
+            let alive = child.try_wait().ok().flatten().is_none();
+            let call = if alive { valid_call(target, port) } else { Err("server process died".into()) };
+            let case = serde_json::to_value(&h).unwrap();
+            match call {
+                Ok(()) => rep.record(sub, hash_of(&h), &CaseInfo::new(h.magic && h.header_bytes >= 48).class(format!("{target:?}")), || case.clone()),
+                Err(e) => {
+                    let died = child.try_wait().ok().flatten();
+                    let f = Fail::new(
+                        if died.is_some() { "remote-server-died" } else { "remote-server-unusable" },
+                        format!("after a hostile header {h:?} the {target:?} no longer answers a valid call: {e} (process exit: {died:?})"),
+                    );
+                    rep.fail(sub, &case, &f, ctx.seed);
+                    let _ = child.kill();
+                    match spawn() {
+                        Some((c2, p2)) => {
+                            child = c2;
+                            ports = p2;
+                        }
+                        None => return rep.mark_inconclusive("cannot restart the server child"),
+                    }
+                }
+            }
+        }
+    }
+    let _ = child.kill();
+    let _ = child.wait();
+    rep.set_exhaustive(sub, true);
+}
+
+// ---------------------------------------------------------------- clients
+
+/// Runs inside a child: a scripted peer answers the client's call with a hostile
+/// header; the call must return Err (and the process must live).
+pub fn check_client(h: &Hostile) -> CheckResult {
+    let bytes_for = |id: u64| header_bytes(h, id);
+    let res: Result<Result<Value, String>, Fail> = block_on(async {
+        let (listener, addr) = listen().await.map_err(|e| Fail::new("harness-listen", e.to_string()))?;
+        match h.target {
+            Target::Client => {
+                let a = addr.to_string();
+                let cl = tokio::task::spawn_blocking(move || Client::connect(a)).await.unwrap().map_err(|e| Fail::new("harness-connect", e.to_string()))?;
+                let mut io = accept_tcp(&listener).await.map_err(|e| Fail::new("harness-accept", e.to_string()))?;
+                let call = tokio::task::spawn_blocking(move || cl.call_json("/x", &json!(1)).map_err(|e| e.to_string()));
+                let f = tokio::time::timeout(Duration::from_secs(10), io.recv()).await.map_err(|_| Fail::new("peer-script", "no request"))?.map_err(|e| Fail::new("peer-script", e.to_string()))?.ok_or_else(|| Fail::new("peer-script", "eof"))?;
+                use tokio::io::AsyncWriteExt;
+                let _ = io.stream.write_all(&bytes_for(f.header.id)).await;
+                let _ = io.stream.flush().await;
+                if h.header_bytes < 48 {
+                    let _ = io.stream.shutdown().await;
+                }
+                let r = tokio::time::timeout(Duration::from_secs(10), call).await.map_err(|_| Fail::new("call-hangs", "the call did not return after a hostile reply"))?;
+                Ok::<_, Fail>(r.map_err(|_| Fail::new("panic", "caller panicked"))?)
+            }
+            Target::AsyncClient => {
+                let cl = AsyncClient::connect(addr).await.map_err(|e| Fail::new("harness-connect", e.to_string()))?;
+                let mut io = accept_tcp(&listener).await.map_err(|e| Fail::new("harness-accept", e.to_string()))?;
+                let call = tokio::spawn(async move { cl.call_json("/x", &json!(1)).await.map_err(|e| e.to_string()) });
+                let f = tokio::time::timeout(Duration::from_secs(10), io.recv()).await.map_err(|_| Fail::new("peer-script", "no request"))?.map_err(|e| Fail::new("peer-script", e.to_string()))?.ok_or_else(|| Fail::new("peer-script", "eof"))?;
+                use tokio::io::AsyncWriteExt;
+                let _ = io.stream.write_all(&bytes_for(f.header.id)).await;
+                let _ = io.stream.flush().await;
+                if h.header_bytes < 48 {
+                    let _ = io.stream.shutdown().await;
+                }
+                let r = tokio::time::timeout(Duration::from_secs(10), call).await.map_err(|_| Fail::new("call-hangs", "the call did not return after a hostile reply"))?;
+                Ok(r.map_err(|_| Fail::new("panic", "caller panicked"))?)
+            }
+            _ => {
+                let url = format!("ws://{addr}");
+                let (cl, io) = tokio::join!(WebSocketClient::connect(&url), accept_ws(&listener));
+                let cl = cl.map_err(|e| Fail::new("harness-connect", e.to_string()))?;
+                let mut io = io.map_err(|e| Fail::new("harness-accept", e.to_string()))?;
+                let call = tokio::spawn(async move { cl.call_json("/x", &json!(1)).await.map_err(|e| e.to_string()) });
+                let f = tokio::time::timeout(Duration::from_secs(10), io.recv()).await.map_err(|_| Fail::new("peer-script", "no request"))?.map_err(|e| Fail::new("peer-script", e.to_string()))?.ok_or_else(|| Fail::new("peer-script", "eof"))?;
+                let _ = io.send(&bytes_for(f.header.id)).await;
+                let r = tokio::time::timeout(Duration::from_secs(10), call).await.map_err(|_| Fail::new("call-hangs", "the call did not return after a hostile reply"))?;
+                Ok(r.map_err(|_| Fail::new("panic", "caller panicked"))?)
+            }
+        }
+    });
+    let r = res?;
+    ensure!(
+        r.is_err(),
+        "hostile-reply-accepted",
+        "{:?}: a call answered with the hostile header {:?} returned Ok({:?})",
+        h.target,
+        h,
+        r
+    );
+    Ok(CaseInfo::new(h.magic && h.header_bytes >= 48).class(format!("{:?}", h.target)))
+}
+
+pub fn run(ctx: &Ctx, rep: &Report) {
+    run_servers(ctx, rep);
+    let mut cases = Vec::new();
+    for (length, q, b, magic, avail, hb) in hostile_classes() {
+        for target in [Target::Client, Target::AsyncClient, Target::WsClient] {
+            let h = Hostile { target, length, q, b, magic, avail, header_bytes: hb };
+            // a reply whose header is valid and whose (small) payload simply has not arrived
+            // yet is a slow peer, not a malformed frame: only generate it with a close
+            if ok_for_streams(&h) && !(magic && hb >= 48 && 48u128 + q as u128 + b as u128 == length as u128 && q + b <= (16 << 20) && (avail as u64) < q + b) {
+                cases.push(h);
+            }
+        }
+    }
+    run_in_children(ctx, rep, "remote-clients", &cases, ctx.threads.min(6), true);
+}
+
+pub fn replay(sub: &str, case: &Value) -> Result<(), Fail> {
+    match sub {
+        "remote-clients" => {
+            let c: Hostile = serde_json::from_value(case.clone()).map_err(|e| Fail::new("replay-decode", e.to_string()))?;
+            let ctx = Ctx { prop: "C02", tier: Tier::Quick, seed: 0, threads: 1, only: None };
+            let rep = Report::new("C02", "exploration", "replay");
+            run_in_children(&ctx, &rep, "remote-clients", &[c], 1, false);
+            if rep.violations() > 0 { Err(Fail::new("replay", "violation reproduced (see above)")) } else { Ok(()) }
+        }
+        "remote-servers" => {
+            let ctx = Ctx { prop: "C02", tier: Tier::Quick, seed: 0, threads: 1, only: Some("remote-servers".into()) };
+            let rep = Report::new("C02", "exploration", "replay");
+            run_servers(&ctx, &rep);
+            if rep.violations() > 0 { Err(Fail::new("replay", "violation reproduced (see above)")) } else { Ok(()) }
+        }
+        _ => Err(Fail::new("replay-unknown-sub", sub.to_string())),
+    }
 }
